@@ -491,7 +491,7 @@ func draw(rt *rapid.T) descriptor {
 		}
 		var cands []int
 		for j := range d.Procs {
-			if j != i && (d.Procs[j].Kind == "catcher" || d.Procs[j].Kind == "waiting") && !used[j] {
+			if j != i && (d.Procs[j].Kind == "catcher" || d.Procs[j].Kind == "waiting") {
 				cands = append(cands, j)
 			}
 		}
